@@ -134,8 +134,13 @@ def frameTok (prost : Bool) : FrameOut → String
   | .none => "n"
   | .panic => "panic"
 
+/-- one token per poll, then `E<bits>` (the model's `is_end_stream` before every poll and after
+the last) and `Hd` (the model's `size_hint` is the default in every state) -/
 def runEnc (c : EncCase) : String :=
-  String.intercalate " " ((Enc.run (encCodec c.tab) c.cfg c.npolls Enc.init c.evs).map (frameTok c.prost))
+  let flags := Enc.endFlags (encCodec c.tab) c.cfg c.npolls Enc.init c.evs
+  let hint := if Enc.sizeHint Enc.init == (0, none) then "Hd" else "H?"
+  String.intercalate " " ((Enc.run (encCodec c.tab) c.cfg c.npolls Enc.init c.evs).map (frameTok c.prost)
+    ++ ["E" ++ String.ofList (flags.map (fun b => if b then '1' else '0')), hint])
 
 structure DecCase where
   prost : Bool := false
@@ -206,6 +211,45 @@ def obsData (obs : List String) : List Bytes :=
 
 def obsMsgs (obs : List String) : List Bytes :=
   obs.filterMap (fun t => if tokKind t = 'm' then unhexBare (t.drop 1).toString else none)
+
+/-- the per-poll tokens of an encoder observation (without the trailing `E…` / `H…` tokens) -/
+def pollToks (obs : List String) : List String := obs.filter (fun t => tokKind t ≠ 'E' && tokKind t ≠ 'H')
+
+/-- the observed `is_end_stream` flags: before poll 0, 1, …, and after the last poll -/
+def endFlagsOf (obs : List String) : List Bool :=
+  match obs.find? (fun t => tokKind t = 'E') with
+  | some t => (t.drop 1).toString.toList.map (· == '1')
+  | none => []
+
+/-- `is_end_stream()` may be true only when nothing more is to be sent: no data frame is produced
+at or after that point, and for a server body the trailers frame has already been produced (a
+true flag before it makes hyper end the stream without ever polling the grpc-status). -/
+def endStreamOk (server : Bool) (obs : List String) : Bool :=
+  let toks := pollToks obs
+  let flags := endFlagsOf obs
+  flags.length == toks.length + 1 &&
+  (List.range flags.length).all (fun i =>
+    !(flags.getD i false) ||
+      ((toks.drop i).all (fun t => tokKind t ≠ 'd') &&
+       (!server || (toks.take i).any (fun t => tokKind t = 't'))))
+
+/-- every observed `size_hint` is sound: lower ≤ bytes still to come ≤ upper -/
+def sizeHintOk (obs : List String) : Bool :=
+  match obs.find? (fun t => tokKind t = 'H') with
+  | none => false
+  | some t =>
+    if t = "Hd" then true else
+    let toks := pollToks obs
+    let hints := ((t.drop 1).toString.splitOn ",").map (fun h =>
+      match h.splitOn "/" with
+      | [l, u] => (l.toNat?.getD 0, u.toNat?)
+      | _ => (0, none))
+    let remaining (i : Nat) : Nat := (((toks.drop i).filterMap (fun t =>
+      if tokKind t = 'd' then unhexBare (t.drop 1).toString else none)).map List.length).foldl (· + ·) 0
+    hints.length == toks.length + 1 &&
+    (List.range hints.length).all (fun i =>
+      let (l, u) := hints.getD i (0, none)
+      decide (l ≤ remaining i) && (match u with | some u => decide (remaining i ≤ u) | none => true))
 
 /-- the tokens that are neither pending nor data/message -/
 def isBad (t : String) : Bool := t = "panic" || t = "busy-loop" || t = "hang"
